@@ -42,6 +42,11 @@ def sweeps(tier, seed):
         d2 = {**d, "routers": [{"name": "r_0"}]}
         d2["connections"] = [{**c, **{k: "r_0" for k in ("src", "dst") if c[k] == "router"}} for c in d["connections"]]
         out.append((d2, dict(t, topo="names")))
+    # a manager-only endpoint array as the ONLY occupant of a boundary side: its coordinate must fit the coordinate
+    # fields although no address-map destination lies out there
+    for sd in "WESN":
+        for (m, n) in ((2, 2), (3, 1)):
+            out.append(families.mesh(rng, m, n, "XY", False, sides=(sd,), side_role="m", cluster_role="ms"))
     out += families.name_collision_suite(tier, seed)
     out += families.address_suite(tier, seed)
     # the package branch without an address table (use_id_table: false; documented for XY)
@@ -72,7 +77,9 @@ def run(tier, seed, rep, replay=None):
     if replay is not None:
         cases = [(replay["case"]["desc"], replay["case"].get("tags", {}))]
     else:
-        cases = families.routing_suite(tier, seed) + sweeps(tier, seed)
+        # XY meshes with manager-only / subordinate-only boundary sides: coordinate fields must hold every identity
+        xy = families.xy_suite(tier, seed)
+        cases = families.routing_suite(tier, seed) + [c for c in sweeps(tier, seed) if c[0] is not None] + (xy[::3] if tier == "quick" else xy)
         cases = [(d, t) for d, t in cases if t.get("expect") != "reject"]
     res = common.run_worker("worker_gen", [{"desc": d, "textfacts": True} for d, _ in cases], timeout=1500)
     reqs, idx = [], []
@@ -104,7 +111,7 @@ def run(tier, seed, rep, replay=None):
         rep.fail(k, msg + f" [{t}]", {"desc": d, "tags": t}, observed=msg)
     rep.coverage.update({
         "evaluations": len(idx), "distinct_nontrivial": len(distinct),
-        "rule": "all routing families + size sweeps (12x12 and 11x2 router arrays, fan-out 12 trees, three-level trees with a two-digit middle index), names with digits and "
+        "rule": "all routing families + XY boundary-side suite (every third member in the quick tier) + size sweeps (12x12 and 11x2 router arrays, fan-out 12 trees, three-level trees with a two-digit middle index), names with digits and "
                 "underscores, address widths 16..64 with ranges touching 2^addr_width; every accepted description's real "
                 "output is read back fail-closed and its text facts go through chk_C12; distinct by canonical description",
         "samples": [{"tags": t} for _, t in cases[:: max(1, len(cases) // 3)][:3]],
